@@ -534,7 +534,7 @@ func verifierProblem(c *core.Ctx, r *Roles, v *ssa.Function) string {
 			return
 		}
 		for _, g := range an.GuardingEdges(ret.Block()) {
-			x, y, op, ok := an.CmpTest(an.BlockIf(g.From))
+			x, y, op, ok := an.CmpTest(g.If())
 			if !ok {
 				continue
 			}
@@ -606,7 +606,7 @@ func runRefTag(c *core.Ctx) {
 				o := an.Origin(v)
 				guards := an.GuardingEdges(at)
 				for _, g := range guards {
-					call, trueSucc, ok := an.BoolCallTest(an.BlockIf(g.From))
+					call, trueSucc, ok := an.BoolCallTest(g.If())
 					if !ok || g.Succ != trueSucc || !an.IsMethod(call, "regexp", "Regexp", "MatchString") {
 						continue
 					}
@@ -706,7 +706,7 @@ func runReferrerCall(c *core.Ctx) {
 		var guardBlock *ssa.BasicBlock
 		guardSucc := 0
 		for _, g := range an.GuardingEdges(hcall.Block()) {
-			x, y, op, ok := an.CmpTest(an.BlockIf(g.From))
+			x, y, op, ok := an.CmpTest(g.If())
 			if !ok || subj == nil {
 				continue
 			}
@@ -875,7 +875,7 @@ func runRefDel(c *core.Ctx) {
 		key := "delete-by-digest-only:" + kn(c.P.FuncName(f))
 		ok := false
 		for _, g := range an.GuardingEdges(site.Block()) {
-			call, trueSucc, isCall := an.BoolCallTest(an.BlockIf(g.From))
+			call, trueSucc, isCall := an.BoolCallTest(g.If())
 			if !isCall || !an.IsMethod(call, "regexp", "Regexp", "MatchString") || !an.IsGlobalLoad(call.Call.Args[0], r.TypesPath, "RefTagRE") {
 				continue
 			}
@@ -987,7 +987,7 @@ func runSiblingRef(c *core.Ctx) {
 		got := fieldsOf(st)
 		kind := ""
 		for _, g := range an.GuardingEdges(al.Block()) {
-			if x, nilSucc, ok := an.NilTest(an.BlockIf(g.From)); ok && g.Succ == nilSucc {
+			if x, nilSucc, ok := an.NilTest(g.If()); ok && g.Succ == nilSucc {
 				if call, _ := an.CallOf(x); call != nil {
 					if pa, ok := ph.unmarshal[call]; ok {
 						kind = ph.parsed[pa]
